@@ -866,7 +866,9 @@ func propC20(c *Check) {
 
 // ---- C21 ----
 
-func ruleR21_1(c *Check) {
+// ruleR21_1_clauseForm is the first version of R21.1, tied to the `switch { case cmp == 0: … }`
+// spelling of MergeIterator.fix; superseded by the guard-based ruleR21_1 in rules_merge.go.
+func ruleR21_1_clauseForm(c *Check) {
 	w := c.W
 	r := c.Rule("R21.1", "E6", 3, "MergeIterator.fix, equal keys: the node advanced is mi.right (never mi.left) and afterwards `small` does not point at the advanced node — the left (earlier) input wins an exact tie; Next skips entries whose key equals the current key",
 		"C01/C04/C12/C31 rely on the earlier source (pending writes, newer memtable, newer level) shadowing an equal internal key of a later source")
@@ -989,6 +991,8 @@ func ruleR21_2(c *Check) {
 func propC21(c *Check) {
 	ruleR21_1(c)
 	ruleR21_2(c)
+	ruleR21_3(c)
+	ruleR21_4(c)
 }
 
 func constInt64(c *types.Const) (int64, bool) {
